@@ -402,6 +402,21 @@ func H_C15_map_async_passes_elements() {
 	})
 	verifAssert(okL && okO, "MapAsync passes each index/key with the value Get returns (the identical nested container)")
 	verifAssert(rl.Get(0) == any(inner) && rl.Get(1) == any(io) && ro.Get("a") == any(inner) && ro.Get("b") == any(io), "MapAsync returns exactly what Map returns for the same pure function")
+	// ForEachAsync likewise: the callback receives the stored containers themselves, as ForEach does
+	feL, feO, nL, nO := true, true, 0, 0
+	l.ForEachAsync(func(i int, v any) {
+		mu.Lock()
+		nL++
+		feL = feL && ((i == 0 && v == any(inner)) || (i == 1 && v == any(io)))
+		mu.Unlock()
+	})
+	o.ForEachAsync(func(k string, v any) {
+		mu.Lock()
+		nO++
+		feO = feO && ((k == "a" && v == any(inner)) || (k == "b" && v == any(io)))
+		mu.Unlock()
+	})
+	verifAssert(feL && feO && nL == 2 && nO == 2, "ForEachAsync passes each index/key with the value Get returns (the identical nested container)")
 	verifReach("end")
 }
 
